@@ -75,6 +75,25 @@ theorem no_indexed_repeat_relative (whole : Str) (start end_ : Nat) (name : Str)
   rw [indexedRepeatMatches_nil _ _ _ h]
   rfl
 
+/-- since 9564302 (`re.DOTALL` on RE_FUNCTION_ARGS) the indexed-repeat verdict exists for every cell text: the model
+never answers `unsupported` for it -/
+theorem indexedArgAt_isSome (whole : Str) (start end_ : Nat) (name : Str) :
+    (indexedArgAt whole start end_ name).isSome = true := by
+  unfold indexedArgAt
+  split
+  · rfl
+  · simp only
+    split <;> rfl
+
+/-- consequently every occurrence gets a replacement verdict (`ok`, `unknown` or `ambiguous`) -/
+theorem replAt_isSome (els : List Chain) (ctx : Option Chain) (uc rp : Bool) (whole atStart rest : Str) (ls : Bool)
+    (name : Str) : (replAt els ctx uc rp whole atStart rest ls name).isSome = true := by
+  unfold replAt
+  have h := indexedArgAt_isSome whole (whole.length - atStart.length) (whole.length - rest.length) name
+  cases hia : indexedArgAt whole (whole.length - atStart.length) (whole.length - rest.length) name with
+  | none => rw [hia] at h; cases h
+  | some ia => simp only [hia]; rfl
+
 /-! ### `insert_xpaths` from the cell text: no `${` survives -/
 
 theorem dollar_notin_joinWith (sep : Str) (p : List Str) (hs : '$' ∉ sep) (hp : ∀ s ∈ p, '$' ∉ s) :
@@ -221,6 +240,8 @@ example : inPredicateAt "${a} + instance('l')/root/item[name = 1]/label".toList 
 example : indexedArgAt "indexed-repeat(${a}, ${R}, 1) + indexed-repeat(${a}, ${R}, 2) + ${b}".toList 64 68 "b".toList =
     some false := by decide
 example : indexedArgAt "indexed-repeat(${a}, ${R}, ${b})".toList 15 19 "a".toList = some true := by decide
+/-- arguments spread over several lines (the shape of C06's F46) -/
+example : indexedArgAt "indexed-repeat(${a},\n ${R},\n ${b})".toList 29 33 "b".toList = some false := by decide
 example : indexedArgAt "indexed-repeat(${a}, ${R}, ${b})".toList 27 31 "b".toList = some false := by decide
 example : insertXpathsText exEls (some exC) false false
     "instance('l')/root/item[name = ${t}]/label + indexed-repeat(${t}, ${R}, ${c}) + ${last-saved#t2}".toList =
